@@ -26,7 +26,7 @@ BOUNDS = {
     "quick": {"program_size": 2, "control_menu_size": 3, "drivers": len(P.DRIVERS_QUICK)},
     "thorough": {"program_size": 3, "control_menu_size": 4, "drivers": len(P.DRIVERS_THOROUGH)},
 }
-CHUNK = 25
+CHUNK = 8
 
 CONTROL = {
     "assign", "aug", "expr", "return", "return-bare", "return-walrus", "raise", "raise-base", "yield", "yield-recv",
@@ -36,10 +36,21 @@ CONTROL = {
 }
 
 
+CONTROL_QUICK = {
+    "assign", "return", "raise", "raise-base", "yield", "yield-recv", "break", "continue",
+    "if-else", "for", "for-else", "while", "try-except", "try-finally", "with",
+}
+CTL_DRIVERS_QUICK = [
+    ("next", "next", "next", "next"), ("next", "send", "next"), ("next", "throw"), ("next", "close"),
+    ("next", "throwbase"), ("next", "drop"), ("close",),
+]
+
+
 def program_sets(tier):
     """General menu at the common size bound + control-flow menu one size larger."""
-    return [("gen", dict(tails=(True, False), key=("gen2", tier))),
-            ("ctl", dict(size=C.SIZE[tier] + 1, only=frozenset(CONTROL), key=("ctl", tier), tails=(True, False)))]
+    return [("gen", dict(tails=(True, False) if tier == "thorough" else (True,), key=("gen2", tier))),
+            ("ctl", dict(size=C.SIZE[tier] + 1, only=frozenset(CONTROL if tier == "thorough" else CONTROL_QUICK),
+                         key=("ctl", tier), tails=(True, False)))]
 
 
 def units(tier):
@@ -222,12 +233,12 @@ def probe_merged(prog, info, sels, x, driver, part, merged, names):
     return obs, True
 
 
-def check_program(prog, tier, part):
+def check_program(prog, tier, part, setname="gen"):
     info = C.analyse(prog)
     if info is None:
         return
     part["counters"]["programs"] += 1
-    drivers = (P.DRIVERS_THOROUGH if tier == "thorough" else P.DRIVERS_QUICK) if info["is_gen"] else [None]
+    drivers = (P.DRIVERS_THOROUGH if tier == "thorough" else (CTL_DRIVERS_QUICK if setname == "ctl" else P.DRIVERS_QUICK)) if info["is_gen"] else [None]
     for x in (0, 1, 2):
         for driver in drivers:
             bad = check_case(prog, info, x, driver, part)
@@ -254,7 +265,7 @@ def work(unit, tier):
     name, lo, hi = unit
     kw = dict(program_sets(tier))[name]
     for prog in C.programs_slice(tier, lo, hi, **kw):
-        check_program(prog, tier, part)
+        check_program(prog, tier, part, name)
     return part
 
 
